@@ -950,31 +950,44 @@ def parts_cases(rng, count):
     for i in range(count):
         parties = T.PARTIES[:rng.randint(1, 5)]
         consts = T.CONSTS[:rng.randint(0, 4)]
-        k = i % 3
-        if k == 0:
-            yield dict(unit='parts', kind='totals', votes=g.nested_votes(consts, parties))
-        elif k == 1:
+        k = i % 5
+        # a Fraction count is written 'n/d' in the case (JSON); counts of that kind arise inside UnusedVotesDistributor
+        frac = (lambda v: {p: ('%d/%d' % (x, rng.randint(2, 5)) if rng.random() < 0.5 else x) for p, x in v.items()}) if rng.random() < 0.12 else (lambda v: v)   # noqa
+        if k in (0, 3):      # 3: the declarative definition of the spec side (totals_s)
+            yield dict(unit='parts', kind='totals' if k == 0 else 'totals_s', votes={c: frac(v) for c, v in g.nested_votes(consts, parties).items()})
+        elif k in (1, 4):    # 4: subset_s
             sub = rng.sample(T.PARTIES[:6], rng.randint(0, 4))
-            yield dict(unit='parts', kind='subset', votes=g.simple_votes(parties), subset=sub, as_tie=rng.random() < 0.4 and len(sub) > 0)
+            yield dict(unit='parts', kind='subset' if k == 1 else 'subset_s', votes=frac(g.simple_votes(parties)), subset=sub,
+                       as_tie=rng.random() < 0.4 and len(sub) > 0)
         else:
             yield dict(unit='parts', kind='add', a=g.gains(parties, 5), b=g.gains(T.PARTIES[:5], 5))
 
 
+def unq(v):
+    if isinstance(v, str) and '/' in v:
+        return Fraction(v)
+    if isinstance(v, dict):
+        return {k: unq(x) for k, x in v.items()}
+    return v
+
+
 def parts_model_line(c):
     import votelib.evaluate.core as core
-    if c['kind'] == 'totals':
-        return '%d (0 %s)' % (B + 5, T.enc(c['votes']))
-    if c['kind'] == 'subset':
+    c = dict(c, votes=unq(c.get('votes')))
+    if c['kind'] in ('totals', 'totals_s'):
+        return '%d (%d %s)' % (B + 5, 0 if c['kind'] == 'totals' else 3, T.enc(c['votes']))
+    if c['kind'] in ('subset', 'subset_s'):
         s = core.Tie(c['subset']) if c['as_tie'] else c['subset']
-        return '%d (1 %s %s)' % (B + 5, T.enc(c['votes']), T.enc(s))
+        return '%d (%d %s %s)' % (B + 5, 1 if c['kind'] == 'subset' else 4, T.enc(c['votes']), T.enc(s))
     return '%d (2 %s %s)' % (B + 5, T.enc(c['a']), T.enc(c['b']))
 
 
 def parts_impl(c):
     import votelib.convert as conv, votelib.util, votelib.evaluate.core as core
-    if c['kind'] == 'totals':
+    c = dict(c, votes=unq(c.get('votes')))
+    if c['kind'] in ('totals', 'totals_s'):
         return '(0 %s)' % T.enc(conv.VoteTotals().convert(c['votes']))
-    if c['kind'] == 'subset':
+    if c['kind'] in ('subset', 'subset_s'):
         s = core.Tie(c['subset']) if c['as_tie'] else c['subset']
         return '(0 %s)' % T.enc(conv.SubsettedVotes(core.DEFAULT_SUBSETTER).convert(c['votes'], s))
     a = dict(c['a'])
